@@ -54,14 +54,14 @@ func main() {
 		Rule: "server side: one case = one POST /authorized-servers (new, duplicate with changed ports/location, same content re-signed, ban, second ban, un-ban attempt incl. replay of the original record, " +
 			"bad/foreign signature on each of these, posts before registration) followed by GET + snapshot; non-trivial = the post names an existing key or carries a signature that verifies under the GCA key. " +
 			"client side: one case = one sync round against the harness-held server (server lists: new / duplicate with changed ports / ban / second ban / un-ban / duplicates inside one list / one bad entry signature / wrong server key / stale time; " +
-			"migration orders with 0..4 servers: valid, outer invalid or foreign, inner signed by old/foreign GCA, for another device, to the current GCA, signed by a former GCA) or one restart; " +
+			"a second/third record for one key without the GCA's signature, in lists and in orders; migration orders with 0..4 servers: valid, outer invalid or foreign, inner signed by old/foreign GCA, for another device, to the current GCA, signed by a former GCA) or one restart; " +
 			"non-trivial = the round reached the harness-held server. Distinct by (sequence seed, step).",
 		Assumptions: []string{
 			"the client's report loop is parked at its loop head (send.loop hook), so only the rounds issued by the harness run",
 			"locations of listed servers are unreachable by construction (unparsable URL / too many colons / 127.77.0.0/16), so fan-out and fail-over end immediately",
 			"where the text leaves a choice (content of an entry at the moment of a ban, a second ban record for a banned entry, the same content under another valid signature, a valid order naming the current GCA, a valid input that is ignored) every allowed outcome is accepted and the observed one counted",
 			"crashes between the file writes of a migration are outside this property's quantifier; the order of 'write files' and 'adopt' is therefore not observable here",
-			"a valid order with zero servers is delivered only as the last step of a sequence (it ends the client's life, finding #16)",
+			"a valid order with zero servers is delivered only as the last step of a sequence and is always followed by a restart: whether it is followed is the implementation's choice, a client that cannot start afterwards is a violation (former finding #16)",
 		},
 		Plan:  plan,
 		Child: child,
@@ -77,7 +77,8 @@ func main() {
 		Post: func(c *ev.Check, outs []*run.Outcome) {
 			for _, k := range []string{"srv.new_added", "srv.dup_ignored", "srv.ban_effective", "srv.on_banned_ignored", "srv.badsig_ignored", "srv.prereg_ignored",
 				"cli.contacted", "cli.entry_added", "cli.ban_applied", "cli.unban_ignored", "cli.dup_ignored", "cli.rejected_unchanged", "cli.migration_adopted", "cli.restart_ok",
-				"cli.class.mig_inner_wrong", "cli.class.mig_outer_invalid", "cli.class.mig_other_device", "cli.class.list_badsig"} {
+				"cli.class.mig_inner_wrong", "cli.class.mig_outer_invalid", "cli.class.mig_other_device", "cli.class.list_badsig",
+				"cli.class.list_dup_unsigned", "cli.class.mig_dup_unsigned", "cli.zero_order_delivered"} {
 				c.Require(k, 1)
 			}
 		},
@@ -925,6 +926,89 @@ func (q *cseq) build(forceZero bool) (raw []byte, class string, terminal bool) {
 		rep.MigSig = order().Signed(G.Priv).Sig
 		return finish(), "mig_valid_zero", true
 	}
+	// A second (or third) record for a key whose GCA signature is missing: the
+	// first record of that key is genuine, the reply as a whole is not.
+	if x := rng.Intn(100); x < 11 {
+		inMig := x >= 7
+		auth := G
+		if inMig {
+			auth = Gn
+			rep.NewGCA, rep.NewID = Gn.Pub, uint32(rng.Intn(1<<31))
+		}
+		var first refenc.AuthServer
+		switch {
+		case !inMig && rng.Intn(3) == 0: // the contacted server's own entry
+			first = rogueRec
+		case !inMig && rng.Intn(2) == 0:
+			if e, ok := q.pick(false, false); ok { // an honest server the device already knows
+				first = asRecord(e)
+				break
+			}
+			fallthrough
+		default:
+			first = q.newEntry(room <= 0 || rng.Intn(2) == 0)
+		}
+		first = first.Signed(auth.Priv)
+		unsigned := func() refenc.AuthServer {
+			d := first
+			switch rng.Intn(4) {
+			case 0:
+				d.Banned = true
+			case 1:
+				d.Banned = true
+				d.TCP, d.UDP = uint16(rng.Intn(65536)), uint16(rng.Intn(65536))
+			case 2:
+				d.Banned = !first.Banned
+				d.Location = undialableLocation(rng, rng.Intn(4))
+			default:
+				d.Banned = false
+				d.TCP++
+			}
+			switch rng.Intn(6) {
+			case 0:
+				rng.Read(d.Sig[:])
+			case 1:
+				d.Sig = [64]byte{}
+			case 2:
+				d = d.Signed(q.foreign.Priv)
+			case 3:
+				d = d.Signed(q.rogue.Key.Priv)
+			case 4:
+				d.Sig = first.Sig // the genuine signature of the first record, which covers other content
+				if content(d) == content(first) {
+					d.Banned = !d.Banned
+				}
+			default:
+				if inMig {
+					d = d.Signed(G.Priv) // the old GCA
+				} else {
+					d = d.Signed(Gn.Priv) // a GCA-to-be
+				}
+			}
+			return d
+		}
+		rep.Servers = append(rep.Servers, first)
+		if rng.Intn(2) == 0 {
+			rep.Servers = append(rep.Servers, q.newEntry(true).Signed(auth.Priv))
+		}
+		if rng.Intn(3) == 0 { // genuine second record, unsigned third
+			g := first
+			g.UDP++
+			rep.Servers = append(rep.Servers, g.Signed(auth.Priv))
+		}
+		rep.Servers = append(rep.Servers, unsigned())
+		if rng.Intn(3) == 0 {
+			rep.Servers = append(rep.Servers, q.newEntry(true).Signed(auth.Priv))
+		}
+		if inMig {
+			if rng.Intn(2) == 0 {
+				rep.Servers = append(rep.Servers, rogueRec.Signed(Gn.Priv))
+			}
+			rep.MigSig = order().Signed(G.Priv).Sig
+			return finish(), "mig_dup_unsigned", false
+		}
+		return finish(), "list_dup_unsigned", false
+	}
 	w := rng.Intn(100)
 	switch {
 	case w < 12: // new servers
@@ -1427,6 +1511,15 @@ func clientSequence(r *ev.Result, rng *rand.Rand, dir, label string, zeroEnding 
 		contacted := rogue.AcceptCount() > a0
 		r.Eval(1)
 		r.Count("cli.class."+class, 1)
+		if class == "mig_valid_zero" && contacted {
+			r.Count("cli.zero_order_delivered", 1)
+			if v := viewOf(q.c); v.GCA == q.cur.GCA && v.ID == q.cur.ID {
+				r.Count("cli.zero_order_not_followed", 1)
+				if ret {
+					r.Count("cli.zero_order_round_succeeded", 1)
+				}
+			}
+		}
 		if contacted {
 			r.Count("cli.contacted", 1)
 			r.Nontrivial(fmt.Sprintf("%s/%d", label, step))
